@@ -85,7 +85,17 @@ def run_case(c):
                 log.append(obj_canon(d))
                 if count[0] % 3 == 0:
                     raise RuntimeError("user callback failed")
-            proto = bridge.UdpClientProtocol(bridge.partial(bridge._parse_device_from_datagram, cb))
+            handler = cb
+            if _ % 3 == 2:
+                # a callable that is falsy (sized and empty): any callable must be called, whatever its truth value
+                class Registry:
+                    def __len__(self):
+                        return 0
+
+                    def __call__(self, d):
+                        return cb(d)
+                handler = Registry()
+            proto = bridge.UdpClientProtocol(bridge.partial(bridge._parse_device_from_datagram, handler))
             from .n_c08 import fields_agree
             seen = []
             for step in range(rnd.randrange(1, 25)):
